@@ -183,7 +183,8 @@ def seeded_map(r, max_segments=12, max_total_s=9.0e5):
         tempo.append([t, n])
         # choose a duration for this segment, convert to ticks (at least 1)
         remaining = budget - spent
-        dur = Fraction(r.choice([1, 10, 1000, 10**5, 10**7]), 10**6) * r.randrange(1, 100)   # seconds
+        # (microseconds up to hours: tempo events must also sit days into the chart, the property's domain is 10^6 s)
+        dur = Fraction(r.choice([1, 10, 1000, 10**5, 10**7, 10**7, 10**9, 10**10]), 10**6) * r.randrange(1, 100)   # seconds
         dur = min(dur, remaining / max(1, (nseg - k)))
         ticks = max(1, int(dur * n * res / 60000))
         ticks = min(ticks, 10**8 // max(1, nseg))
@@ -243,3 +244,41 @@ def chart_case_from_map(r, cid, res, tempo, pts, dense=False):
     if r.random() < 0.4:
         tracks["HardDrums"] = [("N", t, 1, 0) for t in note_ticks[::2]]
     return {"id": cid, "res": res, "sync": sync, "events": evs, "tracks": tracks}
+
+
+def marathon_map(r):
+    """A well-formed map whose LATER tempo events sit hours and days into the chart (a slow first segment, then changes
+    just before / on / after the 24 h, 48 h ... marks), total time below ~10^6 s.  Returns (res, tempo, ticks of interest)."""
+    res = r.choice([192, 480, 100, 96, 1, 7])
+    n0 = r.choice([1000, 1000, 2000, 500, 12000, 60000])            # slow first tempo (milli-BPM)
+    tempo = [[0, n0]]
+    t = 0
+    elapsed = Fraction(0)
+    marks = sorted(r.sample([86400, 2 * 86400, 3 * 86400, 5 * 86400, 7 * 86400, 10 * 86400], r.choice([1, 2, 3])))
+    n = n0
+    for m in marks:
+        target = Fraction(m) + r.choice([Fraction(-1), Fraction(0), Fraction(1, 1000), Fraction(3600), Fraction(-3600)])
+        if target <= elapsed:
+            continue
+        ticks = max(1, int((target - elapsed) * n * res / 60000))
+        if t + ticks > 9 * 10**7:
+            break
+        t += ticks
+        elapsed += Fraction(ticks * 60000, n * res)
+        n = r.choice([120000, 60000, 90000, 1000, 200000, n0])
+        tempo.append([t, n])
+        # a few quick changes right after the mark
+        for _ in range(r.choice([0, 1, 3])):
+            dt = r.randrange(1, 4 * res + 2)
+            t += dt
+            elapsed += Fraction(dt * 60000, n * res)
+            n = r.choice([120000, 60000, 90500, 33333, 240000])
+            tempo.append([t, n])
+    pts = {0}
+    for tk, _ in tempo:
+        pts |= {tk, tk + 1, max(0, tk - 1), tk + r.randrange(2, 1000)}
+    room_s = max(Fraction(0), Fraction(950000) - elapsed)
+    far = t + min(10**8 - t, int(room_s * n * res / 60000))
+    pts.add(far)
+    pts.add((t + far) // 2)
+    return res, tempo, sorted(p for p in pts if 0 <= p <= max(far, t))
